@@ -20,6 +20,7 @@ func c19(c *eng.Ctx, r *eng.Report) {
 		"R19.3 start-up reloads exactly the keys save writes and height lookups use the same key derivation; " +
 		"R19.4 count, lastGroup and the groups store are written only by save, remove and initGroupChain; " +
 		"R19.5 every caller of remove walks from the current top downwards (remove is only correct for the last group) inside one critical section of the chain lock, with the starting height read inside it; " +
+		"R19.9 a height lookup answers from the index alone: outside save, remove, the unwind loop (R19.5), the start-up load and the counter's own accessors no method of groupChain branches on the group count (chain.count, height(), Count()) — the index is what save/remove keep exact; a window clamped by a separately computed bound (height() is count-1) drops the last group whenever the requested range reaches the top of the chain; " +
 		"R19.8 a removal completes or stops the process: remove() reports failure (`return false`) only on conditions over the chain's own records (a missing group or predecessor), never on the outcome of an external call — its callers walk on to the next lower group whatever it returns, so a removal that gives up half-way (an index delete that failed) is followed by removals of groups that are not last; " +
 		"R19.6 no process-local cache sits in front of the group store unless remove() evicts from it. " +
 		"R19.7 no write batch outlives a save unreset: every Write() on a batch kept in a struct field of package core is followed by Reset() on every path (none exists today; the rule is armed for the day save() is batched). " +
@@ -45,6 +46,7 @@ func c19(c *eng.Ctx, r *eng.Report) {
 	c19Keys(c, r, save)
 	c19Writers(c, r)
 	batchResetAs(c, r, "R19.7", "core", 0)
+	c19LookupsReadTheIndex(c, r)
 }
 
 type gcOp struct {
@@ -495,4 +497,64 @@ func c19RemoveFailStop(c *eng.Ctx, r *eng.Report, remove *ssa.Function) {
 		}
 	}
 	r.Check(bad == "" || allTest, rule, "remove:fail-stop", c.Pos(remove.Pos()), fmt.Sprintf("%d failing exits, all on the chain's own records", n), "groupChain.remove "+bad+" while its callers ignore the result and go on removing lower groups: after one removal that gave up, remove() — correct only for the last group — is applied to groups that are not last; count, predecessor list and height index diverge and the damage is persisted")
+}
+
+// c19LookupsReadTheIndex: see R19.9.
+func c19LookupsReadTheIndex(c *eng.Ctx, r *eng.Report) {
+	const rule = "R19.9"
+	r.Min(rule, 1)
+	allowed := map[string]bool{"save": true, "remove": true, "Count": true, "height": true, "refreshCache": true, "init": true, "removeFromCommonAncestor": true /* the unwind loop itself starts at height(): decided by R19.5 */}
+	derivesFromCount := func(v ssa.Value) bool {
+		seen := map[ssa.Value]bool{}
+		var walk func(v ssa.Value, d int) bool
+		walk = func(v ssa.Value, d int) bool {
+			if v == nil || d > 8 || seen[v] {
+				return false
+			}
+			seen[v] = true
+			if u, ok := v.(*ssa.UnOp); ok && u.Op == token.MUL {
+				if t, f := eng.FieldOf(u.X); f == "count" && strings.HasSuffix(t, "groupChain") {
+					return true
+				}
+			}
+			if call, ok := v.(*ssa.Call); ok {
+				n := eng.CallName(&call.Call)
+				if strings.HasSuffix(n, "groupChain).height") || strings.HasSuffix(n, "groupChain).Count") {
+					return true
+				}
+				return false
+			}
+			if in, ok := v.(ssa.Instruction); ok {
+				var ops []*ssa.Value
+				for _, o := range in.Operands(ops) {
+					if *o != nil && walk(*o, d+1) {
+						return true
+					}
+				}
+			}
+			return false
+		}
+		return walk(v, 0)
+	}
+	n, hits := 0, 0
+	for _, fn := range c.PkgFuncs("core") {
+		if fn.Signature.Recv() == nil || !strings.HasSuffix(fn.Signature.Recv().Type().String(), "core.groupChain") {
+			continue
+		}
+		n++
+		for _, b := range fn.Blocks {
+			iff, ok := b.Instrs[len(b.Instrs)-1].(*ssa.If)
+			if !ok || !derivesFromCount(iff.Cond) {
+				continue
+			}
+			if allowed[fn.Name()] {
+				continue
+			}
+			hits++
+			r.Fail(rule, "lookup-branches-on-count:"+eng.FuncName(fn), c.Pos(iff.Cond.Pos()), eng.FuncName(fn)+" branches on the group count ("+eng.Desc(iff.Cond)+"): a lookup bounded by a count-derived limit instead of by what the height index holds is off by one as soon as the two spellings of the top (count, height() = count-1) are mixed — the last group of the chain is missing from every window that reaches it, after additions, after a fork switch and after restart")
+		}
+	}
+	if hits == 0 {
+		r.Pass(rule, "lookup-branches-on-count:none", "", fmt.Sprintf("%d groupChain methods; only save/remove/start-up/Count/height consult the counter", n))
+	}
 }
